@@ -2,6 +2,7 @@ package main
 
 import (
 	"go/token"
+	"go/types"
 
 	"golang.org/x/tools/go/ssa"
 )
@@ -16,6 +17,7 @@ type miniEval struct {
 	leaf  func(ssa.Value) (int64, bool)
 	bleaf func(ssa.Value) (bool, bool) // optional: boolean leaves (a flag, a comma-ok, a predicate call)
 	depth int
+	pick  map[*ssa.Phi]int // set by walk: the incoming edge each phi was entered through
 }
 
 func (e *miniEval) Int(v ssa.Value) (int64, bool) {
@@ -69,6 +71,9 @@ func (e *miniEval) Int(v ssa.Value) (int64, bool) {
 			}
 		}
 	case *ssa.Phi:
+		if k, picked := e.pick[x]; picked {
+			return e.Int(x.Edges[k])
+		}
 		k, ok := e.phiEdge(x)
 		if !ok {
 			return 0, false
@@ -109,6 +114,9 @@ func (e *miniEval) Bool(v ssa.Value) (bool, bool) {
 			return cmpHolds(x.Op, a, b), true
 		}
 	case *ssa.Phi:
+		if k, picked := e.pick[x]; picked {
+			return e.Bool(x.Edges[k])
+		}
 		k, ok := e.phiEdge(x)
 		if !ok {
 			return false, false
@@ -147,4 +155,189 @@ func (e *miniEval) phiEdge(ph *ssa.Phi) (int, bool) {
 		}
 	}
 	return 0, false
+}
+
+// walk runs the control flow from block `from` for the concrete leaves until it
+// reaches `target` (reached), or leaves the function / comes round to `from`
+// again (not reached). Every phi met on the way takes the value of the edge
+// that was actually walked, so merges with any number of arms (the result
+// variables of an inlined helper with several returns) are evaluated exactly.
+// A condition that cannot be evaluated is resolved by unknown, which names the
+// successor to take or -1 (then ok is false: no verdict).
+func (e *miniEval) walk(from, target *ssa.BasicBlock, unknown func(*ssa.If) int) (reached, ok bool) {
+	if e.pick == nil {
+		e.pick = map[*ssa.Phi]int{}
+	}
+	b := from
+	for steps := 0; steps < 256; steps++ {
+		if b == target {
+			return true, true
+		}
+		var next *ssa.BasicBlock
+		switch x := b.Instrs[len(b.Instrs)-1].(type) {
+		case *ssa.If:
+			c, okc := e.Bool(x.Cond)
+			k := 1
+			if c {
+				k = 0
+			}
+			if !okc {
+				if k = unknown(x); k < 0 {
+					return false, false
+				}
+			}
+			next = b.Succs[k]
+		case *ssa.Jump:
+			next = b.Succs[0]
+		default:
+			return false, true
+		}
+		if next != target && (next == from || next.Dominates(from)) {
+			return false, true
+		}
+		for i, p := range next.Preds {
+			if p != b {
+				continue
+			}
+			for _, in := range next.Instrs {
+				ph, isPhi := in.(*ssa.Phi)
+				if !isPhi {
+					break
+				}
+				e.pick[ph] = i
+			}
+			break
+		}
+		b = next
+	}
+	return false, false
+}
+
+// reachesAvoiding: target can be reached from b without entering avoid.
+func reachesAvoiding(b, target, avoid *ssa.BasicBlock) bool {
+	seen := map[*ssa.BasicBlock]bool{}
+	var dfs func(x *ssa.BasicBlock) bool
+	dfs = func(x *ssa.BasicBlock) bool {
+		if x == target {
+			return true
+		}
+		if x == avoid || seen[x] {
+			return false
+		}
+		seen[x] = true
+		for _, s := range x.Succs {
+			if dfs(s) {
+				return true
+			}
+		}
+		return false
+	}
+	return dfs(b)
+}
+
+// simulateLoop runs, for concrete leaves, the innermost natural loop that
+// contains block at: the integer phis of its head start from their entry values
+// and are advanced by their latch values; in every round that the head's
+// condition admits, visit is called with an evaluator in which the phis have
+// that round's values. It reports false when something cannot be evaluated, the
+// loop has not ended after max rounds, or visit says so.
+func simulateLoop(at *ssa.BasicBlock, leaf func(ssa.Value) (int64, bool), max int, visit func(ev *miniEval) bool) bool {
+	var loop *natLoop
+	ls := natLoops(at.Parent())
+	for k := range ls {
+		if ls[k].Blocks[at] && (loop == nil || len(ls[k].Blocks) < len(loop.Blocks)) {
+			loop = &ls[k]
+		}
+	}
+	if loop == nil {
+		return false
+	}
+	head := loop.Head
+	iff, ok := head.Instrs[len(head.Instrs)-1].(*ssa.If)
+	if !ok || loop.Blocks[head.Succs[0]] == loop.Blocks[head.Succs[1]] {
+		return false
+	}
+	bodyOnTrue := loop.Blocks[head.Succs[0]]
+	body := head.Succs[1]
+	if bodyOnTrue {
+		body = head.Succs[0]
+	}
+	if body != at && !body.Dominates(at) {
+		return false
+	}
+	type lv struct {
+		phi        *ssa.Phi
+		init, step ssa.Value
+	}
+	var vars []lv
+	for _, in := range head.Instrs {
+		ph, isPhi := in.(*ssa.Phi)
+		if !isPhi {
+			break
+		}
+		if b, isB := ph.Type().Underlying().(*types.Basic); !isB || b.Info()&types.IsInteger == 0 {
+			continue
+		}
+		v := lv{phi: ph}
+		for k, p := range head.Preds {
+			e := ph.Edges[k]
+			if loop.Blocks[p] {
+				if v.step != nil && v.step != e {
+					return false
+				}
+				v.step = e
+			} else {
+				if v.init != nil && v.init != e {
+					return false
+				}
+				v.init = e
+			}
+		}
+		if v.init == nil || v.step == nil {
+			return false
+		}
+		vars = append(vars, v)
+	}
+	vals := map[ssa.Value]int64{}
+	mk := func() *miniEval {
+		return &miniEval{leaf: func(v ssa.Value) (int64, bool) {
+			if n, has := vals[v]; has {
+				return n, true
+			}
+			return leaf(v)
+		}}
+	}
+	ev0 := mk()
+	inits := map[ssa.Value]int64{}
+	for _, v := range vars {
+		n, okN := ev0.Int(v.init)
+		if !okN {
+			return false
+		}
+		inits[v.phi] = n
+	}
+	vals = inits
+	for round := 0; round < max; round++ {
+		ev := mk()
+		c, okC := ev.Bool(iff.Cond)
+		if !okC {
+			return false
+		}
+		if c != bodyOnTrue {
+			return true
+		}
+		if !visit(ev) {
+			return false
+		}
+		next := map[ssa.Value]int64{}
+		for _, v := range vars {
+			n, okN := ev.Int(v.step)
+			if !okN {
+				return false
+			}
+			next[v.phi] = n
+		}
+		vals = next
+	}
+	return false
 }
